@@ -36,7 +36,7 @@ const (
 	numWOps
 )
 
-var wOpNames = []string{"Apply(BlockChecksum)", "Apply(BlockSize256K)", "Apply(Size777)", "Apply(NoChecksum)", "Apply(LegacyOn)", "Apply(LegacyOff)",
+var wOpNames = []string{"Apply(BlockChecksum)", "Apply(BlockSize256K)", "Apply(SizeWithZeroHeaderChecksum)", "Apply(NoChecksum)", "Apply(LegacyOn)", "Apply(LegacyOff)",
 	"Write(0)", "Write(100)", "Write(65536)", "Write(70000)", "ReadFrom(1000)", "Flush", "Close", "Reset(same)", "Reset(new)"}
 
 // model of the options as the property describes them
@@ -334,7 +334,9 @@ func runWriterSeq(c *Ctx, i int64, seq []int, conc bool) {
 			case wApplyBS256:
 				o, m2.bs = lz4.BlockSizeOption(lz4.Block256Kb), 262144
 			case wApplySize:
-				o, m2.size = lz4.SizeOption(777), 777
+				// a value for which the header checksum byte of the current flags is 0x00
+				sz := hcZeroSize(lz4.BlockSize(model.bs), model.bc, model.cc)
+				o, m2.size = lz4.SizeOption(sz), sz
 			case wApplyNoCC:
 				o, m2.cc = lz4.ChecksumOption(false), false
 			case wApplyLegacyOn:
